@@ -32,7 +32,7 @@ HEX_FACES = [(0, 1, 2, 3), (4, 5, 6, 7), (0, 3, 7, 4), (0, 1, 5, 4), (1, 2, 6, 5
 
 def cases(seed, tier):
     rng = random.Random(seed * 15485863 + 5)
-    n = 500 if tier == "quick" else 12000
+    n = 500 if tier == "quick" else 60000
     kinds = ["surface", "surface", "surface", "tets", "tets", "hexes", "polyline", "points", "cells_plus_faces", "mixed_cells"]
     out = []
     for i in range(n):
